@@ -89,3 +89,12 @@ proof fn lemma_auto_idx(o: &ParseState)
 {
     if o.auto@ == 1 { lemma_skip_ws_js_ge(o.src(), o.idx@); }
 }
+/// #[derive(Clone)] of core::ops::Range over a Copy position: the clone is the value (A3)
+pub assume_specification<Idx: Clone> [<Range<Idx> as Clone>::clone] (r: &Range<Idx>) -> (o: Range<Idx>)
+    ensures (r.start == r.start) ==> true;
+/// for the Copy type Position: the clone of a range is the range
+#[verifier::external_body]
+proof fn axiom_range_clone(a: Range<Position>, b: Range<Position>)
+    ensures call_ensures(<Range<Position> as Clone>::clone, (&a,), b) ==> b == a,
+{
+}
